@@ -9,16 +9,16 @@ from common import (Infra, NCPU, Result, Scratch, build_harness, cfg, match_find
 
 ALL = ["version", "verack", "ping", "pongOK", "pongBad", "protoconf", "reject", "addr", "getaddr", "inv", "invBlock",
        "tx", "block", "extTx", "extBlock", "extOther", "other", "hdrBSV", "hdrBCH", "hdrUnknown", "hdrEmpty",
-       "hdrBSVSecond", "hdrGood", "hdrBad", "hdrTxCount"]
+       "hdrBSVSecond", "hdrGood", "hdrBad", "hdrTxCount", "hdrBSVShort", "hdrGoodShort"]
 HDR = [m for m in ALL if m.startswith("hdr")]
 # messages a conformant, verified peer may send without the connection being closed by design
 CONFORMANT_READY = ["ping", "pongOK", "reject", "addr", "getaddr", "inv", "invBlock", "tx", "block", "extTx", "extBlock",
                     "extOther", "other", "hdrGood", "hdrEmpty", "version", "verack", "reqblock", "blockWanted"]
 HANDSHAKE = ["version", "verack", "hdrBSV"]
 
-EXH_INV = ["ReadyImpliesVerified", "VerifyOnlyDisconnects", "NeverReadyWhenVerifyOnly", "NeverDeafWhileReady",
+EXH_INV = ["ReadyImpliesVerified", "VerifyOnlyDisconnects", "NeverReadyWhenVerifyOnly", "VerifyOnlyNeverWaits",
            "InSyncWhileReady"]
-EXH_PROPS = ["NoSinkBeforeReady", "ReadyNeedsHandshakeAndBSV", "PingAnswered", "OnlyBSVVerifies"]
+EXH_PROPS = ["NoSinkBeforeReady", "ReadyNeedsHandshakeAndBSV", "PingAnswered", "OnlyBSVVerifies", "NeverDeafWhileReady"]
 
 
 def gen_module(prefix):
